@@ -450,6 +450,57 @@ func TestVerifC16(t *testing.T) {
 		}
 		pending = nil
 	}
+	// what a kill inside the engine's creation (or deletion) of a memtable file leaves behind: a zero-length NNNNN.mem
+	// (seen for real in kill cycle 204 of a thorough run); the store must reopen on it, with everything still there
+	{
+		row := map[string]interface{}{"k": "leftover"}
+		mon := []string{}
+		maxFid := 0
+		if ents, err := os.ReadDir(dir); err == nil {
+			for _, e := range ents {
+				if strings.HasSuffix(e.Name(), ".mem") {
+					if n, err := strconv.Atoi(strings.TrimSuffix(e.Name(), ".mem")); err == nil && n > maxFid {
+						maxFid = n
+					}
+				}
+			}
+		}
+		name := fmt.Sprintf("%05d.mem", maxFid+1)
+		row["file"] = name
+		if err := os.WriteFile(dir+"/"+name, nil, 0600); err != nil {
+			t.Fatal(err)
+		}
+		d, err := Open(dir)
+		row["reopen_ok"] = err == nil
+		if err != nil {
+			e := err.Error()
+			if i := strings.Index(e, "\n"); i > 0 {
+				e = e[:i]
+			}
+			row["error"] = e
+			mon = append(mon, "the store did not reopen on what a kill inside memtable file creation leaves (zero-length "+name+"): "+e)
+			d, err = Open(dir)
+			row["second_reopen_ok"] = err == nil
+		}
+		if err == nil {
+			missing := 0
+			for k, e := range expects {
+				if k%97 != 0 {
+					continue
+				}
+				if b, gerr := d.GetSignedVAABytes(e.id); gerr != nil || hex.EncodeToString(b) != e.bytes {
+					missing++
+				}
+			}
+			row["missing_after"] = missing
+			if missing > 0 {
+				mon = append(mon, fmt.Sprintf("%d sampled VAAs, present after an earlier reopen, are missing or different after reopening on a zero-length %s", missing, name))
+			}
+			d.Close()
+		}
+		row["mon"] = mon
+		enc.Encode(row)
+	}
 	// the wrapper reports a failed transaction: a store on a closed database returns an error and leaves nothing behind
 	{
 		row := map[string]interface{}{"k": "closed"}
